@@ -1095,8 +1095,17 @@ func (p *partition) handleReplicationResponse(msg *nats.Msg) int {
 	}
 	p.mu.RUnlock()
 
-	// Update HW from leader's HW.
-	p.log.SetHighWatermark(hw)
+	// Update HW from leader's HW, but only once the messages in this response
+	// have been appended and never beyond the end of the local log. The
+	// leader's HW can be ahead of what this replica has fetched so far; a HW
+	// pointing past the local log end makes committed readers on this replica
+	// fail to locate it ("segment not found") or skip ahead to it.
+	defer func() {
+		if newest := p.log.NewestOffset(); hw > newest {
+			hw = newest
+		}
+		p.log.SetHighWatermark(hw)
+	}()
 
 	if len(data) == 0 {
 		return 0
